@@ -30,8 +30,8 @@ def setup(tmp, seed):
     qnames = ['query0.fasta', 'sub dir/query,1.fa.gz', 'q.2.fna']
     rnames = ['ref0.fa', 'r/ref1.fasta.gz', 'ref2', 'ref3.txt', 'other/ref0.fa.fasta']
     env = dict(q=qs, r=rs, qnames=qnames, rnames=rnames)
-    for nm, c in zip(qnames, qs):
-        W.write_fasta(os.path.join(tmp, 'qdir', nm), c, gz=nm.endswith('.gz'))
+    for qi_, (nm, c) in enumerate(zip(qnames, qs)):
+        W.write_fasta(os.path.join(tmp, 'qdir', nm), c, gz=nm.endswith('.gz'), mixed=(qi_ == 1))       # one query soft-masked (mixed case)
     for nm, c in zip(rnames, rs):
         W.write_fasta(os.path.join(tmp, 'rdir', nm), c, gz=nm.endswith('.gz'), eol='\r\n', lower=True)
     # references that carry the SAME file names (hence labels) as the queries but different contents
